@@ -83,7 +83,7 @@ def main():
       }],
       "checks": [],
       "not_applicable": [{"property_id": k, "reason": v} for k, v in sorted(NA.items())],
-      "notes": "One technique family: deterministic simulation with fault injection. Exit codes of every command: 0 held, 1 VIOLATION line printed, 2 harness error. VERIF_SEED selects the batch (default fixed), VERIF_TIER overrides the tier argument. Sensitivity: 51 one-line mutants and 107 of 109 changes written by independent sub-agents (seeded/) are reported by the quick tier of the property they break (the other two are, on a literal reading of C08 / C06, no violations and are deliberately not reported); 63 property-preserving changes by sub-agents (benign/) leave every check of the property they were written against silent; of 477 check runs against them 3 raise an alarm correctly (under another property that the change does break) and 4 did so wrongly, which led to two repairs of the machinery (DESIGN.md section 13). See DESIGN.md.",
+      "notes": "One technique family: deterministic simulation with fault injection. Exit codes of every command: 0 held, 1 VIOLATION line printed, 2 harness error. VERIF_SEED selects the batch (default fixed), VERIF_TIER overrides the tier argument. Sensitivity: 51 one-line mutants and 107 of 109 changes written by independent sub-agents (seeded/) are reported by the quick tier of the property they break (the other two are, on a literal reading of C08 / C06, no violations and are deliberately not reported); 63 property-preserving changes by sub-agents (benign/) leave every check of the property they were written against silent; of 490 (change, check) runs against them 3 raise an alarm correctly (under another property that the change does break) and 4 did so wrongly, which led to two repairs of the machinery (DESIGN.md section 13). See DESIGN.md.",
     }
     for pid, c in sorted(CHECKS.items()):
         m["checks"].append({
